@@ -417,6 +417,10 @@ class Negative(Term):
     def is_aggregate(self) -> Optional[bool]:
         return self.term.is_aggregate
 
+    @builder
+    def replace_table(self, current_table: Optional["Table"], new_table: Optional["Table"]) -> "Negative":
+        self.term = self.term.replace_table(current_table, new_table)
+
     def get_sql(self, **kwargs: Any) -> str:
         return "-{term}".format(term=self.term.get_sql(**kwargs))
 
@@ -931,6 +935,7 @@ class ContainsCriterion(Criterion):
             A copy of the criterion with the tables replaced.
         """
         self.term = self.term.replace_table(current_table, new_table)
+        self.container = self.container.replace_table(current_table, new_table)
 
     def get_sql(self, subquery: Any = None, **kwargs: Any) -> str:
         sql = "{term} {not_}IN {container}".format(
@@ -961,6 +966,10 @@ class ExistsCriterion(Criterion):
     def negate(self):
         self._is_negated = True
 
+    @builder
+    def replace_table(self, current_table: Optional["Table"], new_table: Optional["Table"]) -> "ExistsCriterion":
+        self.container = self.container.replace_table(current_table, new_table)
+
 
 class RangeCriterion(Criterion):
     def __init__(self, term: Term, start: Any, end: Any, alias: Optional[str] = None) -> str:
@@ -979,10 +988,8 @@ class RangeCriterion(Criterion):
     def is_aggregate(self) -> Optional[bool]:
         return self.term.is_aggregate
 
-
-class BetweenCriterion(RangeCriterion):
     @builder
-    def replace_table(self, current_table: Optional["Table"], new_table: Optional["Table"]) -> "BetweenCriterion":
+    def replace_table(self, current_table: Optional["Table"], new_table: Optional["Table"]) -> "RangeCriterion":
         """
         Replaces all occurrences of the specified table with the new table. Useful when reusing fields across queries.
 
@@ -994,7 +1001,11 @@ class BetweenCriterion(RangeCriterion):
             A copy of the criterion with the tables replaced.
         """
         self.term = self.term.replace_table(current_table, new_table)
+        self.start = self.start.replace_table(current_table, new_table)
+        self.end = self.end.replace_table(current_table, new_table)
 
+
+class BetweenCriterion(RangeCriterion):
     def get_sql(self, **kwargs: Any) -> str:
         # FIXME escape
         sql = "{term} BETWEEN {start} AND {end}".format(
@@ -1347,6 +1358,10 @@ class All(Criterion):
     def nodes_(self) -> Iterator[NodeT]:
         yield self
         yield from self.term.nodes_()
+
+    @builder
+    def replace_table(self, current_table: Optional["Table"], new_table: Optional["Table"]) -> "All":
+        self.term = self.term.replace_table(current_table, new_table)
 
     def get_sql(self, **kwargs: Any) -> str:
         sql = "{term} ALL".format(term=self.term.get_sql(**kwargs))
